@@ -627,6 +627,18 @@ func (w *blobWorld) drawPlan() {
 			n := w.digests[0].n
 			a = blobOp{kind: opChunked, dig: 0, chunks: drawChunks(n, 1, inOrder), retry: D("retry", 2) == 0}
 			b = blobOp{kind: opChunked, dig: 0, chunks: drawChunks(n, 0, inOrder)}
+			// most of these duels are about damaged bytes (one corrupted byte somewhere in a
+			// chunk that arrives in several reads, so that bytes are written before the
+			// chunk's digest can be checked), on a platform with a coarse clock
+			if D("duel-corrupt", 4) != 0 {
+				for i := range a.chunks {
+					a.chunks[i].rf.mode, a.chunks[i].skip, a.chunks[i].badDigest = rdCorrupt, false, false
+				}
+			}
+			if D("duel-coarse", 4) != 0 && !w.coarse {
+				w.coarse = true
+				w.c.now = coarseNow
+			}
 			verifsim.Probe("duel_chunked")
 		}
 		if D("duelside", 2) == 0 {
